@@ -154,7 +154,7 @@ def job(j: dict) -> dict:
 def run(chk) -> None:
     quick = chk.tier == "quick"
     drive.preload()
-    chk.rule = ("edit sequences of length <= 2 over {blank, comment} x 4 positions, trailing whitespace x 2 "
+    chk.rule = ("edit sequences of length <= 2 (thorough: <= 3) over {blank, comment} x 4 positions, trailing whitespace x 2 "
                 "positions, reindent, CRLF, BOM, appended unrelated code (enumerated by TLC from Edits.tla) x 23 "
                 "linter x language bases; all rules linted before/after; non-trivial = base has findings; "
                 "distinct by (base, edit sequence)")
@@ -162,7 +162,7 @@ def run(chk) -> None:
                        "contain no multi-line strings, so every insertion point is meaning-preserving",
                        "file-level findings (file-header, file-placement) do not shift",
                        "identifier renaming is not generated (not modelled)"]
-    r = tlc.run("Edits", "mc/Edits.cfg", workers=4, timeout=600)
+    r = tlc.run("Edits", "mc/Edits.cfg" if quick else "mc/Edits3.cfg", workers=4, timeout=1800)
     chk.add_tlc("Edits sequences + shift meta-properties", r)
     if r.violation:
         raise MachineryError("Edits.tla invariants violated:\n" + r.stdout[-1500:])
